@@ -2,7 +2,10 @@
 # matrix.sh: re-run every seeded change against the checks listed in its meta.json (plus its own property)
 # and rewrite meta.json's caught_by_quick_checks with what was measured. /repo must be clean.
 cd /verif
-for D in seeded/*/; do
+# optional arguments: ids (default: all)
+LIST="${@:-$(ls seeded)}"
+for ID0 in $LIST; do
+  D=seeded/$ID0/
   ID=$(basename $D)
   CHECKS=$(python3 -c "
 import json
